@@ -298,6 +298,17 @@ def make_batch(rng, lang, domain='any', max_sentences=4, max_nbest=3, licensed_s
     token_fn = (lambda r: en_token(r, domain, attr_domain)) if lang == 'en' else (lambda r: ja_token(r, domain if domain != 'any' else 'ja'))
     if lang == 'ja' and domain == 'any':
         token_fn = lambda r: ja_token(r, 'any')     # noqa: E731
+    base_fn, recent = token_fn, []
+
+    def token_fn(r):
+        # now and then a word repeats with identical attributes (a different Token object with equal content)
+        from depccg.types import Token
+        if recent and r.random() < 0.15:
+            return Token(**dict(r.choice(recent)))
+        t = base_fn(r)
+        recent.append(t)
+        del recent[:-6]
+        return t
     batch = []
     for _ in range(rng.randint(1, max_sentences)):
         if rng.random() < licensed_share:
